@@ -87,8 +87,8 @@ class Run:
     # ------------------------------------------------------------- harness
     def build_harness(self, race=False):
         """Build the Go harness against /repo's current working tree (replace => /repo)."""
-        out = os.path.join(OUT, "bin", "vh-race" if race else "vh")
-        os.makedirs(os.path.dirname(out), exist_ok=True)
+        # private binary per run: concurrent runs (and other builders) never swap it under us
+        out = os.path.join(self.work, "vh-race" if race else "vh")
         sumf = os.path.join(HARNESS, "go.sum")
         if not os.path.exists(sumf):
             shutil.copy(os.path.join(REPO, "go.sum"), sumf)
@@ -276,10 +276,17 @@ class Run:
             tf = tempfile.NamedTemporaryFile("w", suffix=".ndjson", dir=self.work, delete=False)
             tf.write("".join(l for _, l in items))
             tf.close()
-            e = {"VERIF_TRACE": tf.name, "VERIF_ALLOWED": ",".join(sorted(self.findings))}
+            af = tf.name + ".allowed"
+            with open(af, "w") as f:
+                for k in sorted(self.findings):
+                    f.write(json.dumps({"key": k}) + "\n")
+                if not self.findings:
+                    f.write(json.dumps({"key": "(none)"}) + "\n")
+            e = {"VERIF_TRACE": tf.name, "VERIF_ALLOWED": ",".join(sorted(self.findings)), "VERIF_ALLOWED_FILE": af}
             e.update(env or {})
             rc, out, dt = self.tlc(module, cfg_text, workers=1, timeout=1200, env=e)
             os.unlink(tf.name)
+            os.unlink(af)
             for m in re.finditer(r'<<"DEVIATION", "([^"]+)", (\d+)>>', out):
                 deviations.append(m.group(1))
             if rc == 0 and "No error has been found" in out:
